@@ -314,6 +314,12 @@ def r16_5(run):
             ok = any(lab == 'T' and const(t.ast.left) == flag for t, lab in gd)
             run.ob('R16.5', cr, n.ast, '%s holds exactly the relays with the (lower-cased) %s flag' % (coll, flag), ok, slot='flag:%s' % coll,
                    message='%s membership is not keyed on the lower-case flag %r the flags setter produces' % (coll, flag))
+            # ... *exactly*: the store depends on that one test and on nothing else (a further condition - "and running" - leaves
+            # relays that carry the flag out of the collection)
+            extra = [(t, lab) for t, lab in g.guarded_by(n, lambda t_: True) if not (isinstance(t.ast, ast.Compare) and const(t.ast.left) == flag and lab == 'T')]
+            run.ob('R16.5', cr, n.ast, 'membership in %s depends on the %s flag alone' % (coll, flag), not extra, slot='flag-alone:%s' % coll,
+                   message='%s is filled only when also %s: relays of the latest document that carry the %s flag are missing from the collection'
+                           % (coll, ['%s%s' % ('' if lab == 'T' else 'not ', src(t.ast)[:40]) for t, lab in extra][:3], flag))
     # nothing but the per-document reset removes a relay from the two collections (a relay whose *nickname* is ambiguous still
     # carries its flag)
     for u in class_units(run.idx, ts_):
@@ -413,8 +419,17 @@ def r16_6(run):
     run.floor('R16.6', 'suspension points in TorState._bootstrap', k, 4)
 
 
+def r16_9(run):
+    """a replacement consensus reaches the relay view at all: the NEWCONSENSUS event's text is dispatched uncut (rule R02.1, shared) -
+    a document that lists no relay is the two lines "NEWCONSENSUS" / "OK", and shortening it makes the event name unrecognisable,
+    so every relay of the previous document is carried over"""
+    from . import c02
+    borrow(run, c02.r02_1, 'R16.9')
+
+
 RULES = [
     ('R16.6', 'no dropped Deferred in TorState._bootstrap (ns/all is loaded before the state is declared ready)', r16_6),
+    ('R16.9', 'the NEWCONSENSUS event text is dispatched uncut (R02.1 borrowed): an empty replacement document still replaces the view', r16_9),
     ('R16.1', 'writer/resetter set agreement: every index _create_router fills is rebound/cleared before the document is fed; parser flushed', r16_1),
     ('R16.2', 'reuse hygiene: every Router attribute written conditionally or cumulatively is reset unconditionally (objects are re-used across documents)', r16_2),
     ('R16.3', 'FSM table x line classes against dir-spec 3.4.1 order r a* s [w] [p] (first-match, matcher ASTs interpreted on class representatives)', r16_3),
@@ -426,6 +441,8 @@ RULES = [
 from ..selftest import M  # noqa: E402
 FT, FP, FR = 'txtorcon/torstate.py', 'txtorcon/_microdesc_parser.py', 'txtorcon/router.py'
 MUTANTS = [
+    M('ok-line-cut-from-events-too', 'txtorcon/torcontrolprotocol.py', ["        self.response = ''\n        if self.code is None:", "            if resp.endswith('\\nOK'):\n                resp = resp[:-3]\n            self.defer.callback(resp)"], ["        self.response = ''\n        if resp.endswith('\\nOK'):\n            resp = resp[:-3]\n        if self.code is None:", "            self.defer.callback(resp)"], ['R16.9/R02.1']),
+    M('guards-need-running-too', 'txtorcon/torstate.py', "        if 'guard' in router.flags:\n", "        if 'guard' in router.flags and 'running' in router.flags:\n", ['R16.5']),
     M('authority-dropped-with-dup-nick', FT, "        for k in remove_keys:\n            del self.routers[k]\n", "        for k in remove_keys:\n            del self.routers[k]\n            self.authorities.pop(k, None)\n", ['R16.5']),
     M('flush-after-dup-pass', FT, ["                self._network_status_parser.feed_line(line)\n            self._network_status_parser.done()\n", "        for k in remove_keys:\n            del self.routers[k]\n"], ["                self._network_status_parser.feed_line(line)\n", "        for k in remove_keys:\n            del self.routers[k]\n        self._network_status_parser.done()\n"], ['R16.8']),
     M('bandwidth-last-equals', FP, "        args = data.split()[1:]\n        kw = find_keywords(args)\n        self._relay_attrs['bandwidth'] = kw['Bandwidth']", "        self._relay_attrs['bandwidth'] = data.rpartition('=')[2]", ['R16.8']),
